@@ -33,6 +33,9 @@ bodies), in evaluation order, duplicates within a statement dropped:
   * operands of `and` / `or` / `x if c else y` that Python evaluates conditionally carry their guard: `(g && c)`
 and every `return e` becomes `return (e, bad)`.  Constructs the instrumentation does not understand raise `Unsupported("safe: ...")`
 (the Safe module is then reported FAILED); the ordinary output never depends on this mode (byte-identical).
+Hooks for translators that subclass `K` with further constructs (py2lean_fixed, py2lean_stats, ...): the kernel cfg may carry
+`safe_mixin=<subclass of SafeMixin>` (its `ck` / `stmt_checks` know the subclass's constructs, e.g. NumPy vector idioms) and
+`safe_note="<text>"` (appended to the header comment of the Safe module: names the additional checks).
 """
 import ast
 import hashlib
@@ -699,10 +702,12 @@ def main(kernels=None, tool="py2lean_num"):
             if cfg.get("safe"):
                 module = safe_module_of(cfg)
                 cls = cfg.get("translator") or K
-                ks = type("Safe" + cls.__name__, (SafeMixin, cls), {})(cfg, fn)
+                mix = cfg.get("safe_mixin") or SafeMixin          # hook: a subclass of SafeMixin that knows the subclass's constructs
+                ks = type("Safe" + cls.__name__, (mix, cls), {})(cfg, fn)
                 body = ks.run()
                 imports = "".join(f"import {m}\n" for m in ["Hdc.Gen.NumBase", "Hdc.PySafe"] + cfg.get("imports", []) + cfg.get("safe_imports", []))
                 note = ("  Array-valued divisions (not instrumented): " + "; ".join(dict.fromkeys(ks.array_divs)) + ".") if ks.array_divs else ""
+                note += cfg.get("safe_note", "")          # hook: further checks a `safe_mixin` emits
                 text = (f"{imports}/-\nGENERATED by harness/{tool}.py (instrumentation mode) from {cfg['file']}::{cfg['func']} (sha256 of the function source {sha}).  Do not edit.\n"
                         f"The statements of `Hdc.Gen.NumKernels.{cfg['name']}` plus the flag `bad`: set when a subscript is outside `[-len, len)`, a slice is not\n"
                         f"`0 <= lo <= hi <= len`, a scalar divisor is zero, or an instrumented callee sets its flag.{note}\n-/\n"
